@@ -211,6 +211,11 @@ class Check:
         self.notes = []
         os.makedirs(EVID, exist_ok=True)
         os.makedirs(REPLAYS, exist_ok=True)
+        for old in glob.glob(os.path.join(REPLAYS, "%s_%s_*" % (prop, tier))):
+            try:
+                os.remove(old)
+            except OSError:
+                pass
 
     def add_tlc(self, res, what=None):
         self.states += max(res.distinct, res.sim_states)
